@@ -199,6 +199,26 @@ def tt_programs(tier, raising_bias=False):
             p = make_program(children, [], ENVS[env])
             p["label"] = f"children=({first},joiner) tail=none env={env}"
             progs.append(p)
+    # the host is cancelled repeatedly (natively) while a child is still in shielded cleanup
+    for first_cancel in (["ncancel", "main"], ["cancel", "G1"], ["cancel", "S0"]):
+        for second in ("wait", "shield2"):
+            for tail in ("none", "wait"):
+                if tier == "quick" and (second, tail) != ("wait", "none"):
+                    continue
+                child0 = [["try", [["wait", "g"]],
+                           {"cancel": [["scope", "SH0", {"shield": True}, [["wait", "g2"], ["cp"]]]],
+                            "reraise": True}]]
+                child1 = (child0 if second == "shield2" else [["wait", "g"]])
+                env = [{"do": first_cancel, "name": "first:" + ":".join(first_cancel)},
+                       {"do": ["ncancel", "main"], "name": "n2"},
+                       {"do": ["set", "g2"], "after": ["first:" + ":".join(first_cancel)]},
+                       {"do": ["set", "g"], "after": ["set:g2"]}]
+                if tier != "quick":
+                    env.append({"do": ["ncancel", "main"], "name": "n3", "after": ["n2"]})
+                p = make_program([child0, child1], HOST_TAILS[tail], env)
+                p["objects"]["g2"] = ["gate"]
+                p["label"] = f"repeated-cancel first={first_cancel} second={second} tail={tail}"
+                progs.append(p)
     # children spawning children / nested groups
     nested_children = [
         ("spawner", [["spawn", "G1", "gc"], ["wait", "g"]]),
